@@ -265,7 +265,10 @@ Definition load_lrv (l : loc) : M (bytes * slice) :=
 
 (* map-form loop of NaturalLanguageValues.MarshalJSON: `for _, val := range n` copies each entry into a
    loop variable (a fresh one-cell array) and works on the copy *)
-Fixpoint nlv_loop (n : slice) (k : nat) (count : nat) (buf : slice) (empty : bool) : M (slice * bool) :=
+(* [keys]: the member names written so far (fix 05721dc).  Each is produced in a fresh bytes.Buffer (stringBytes into
+   a new buffer: an allocation of the model) and kept in a fresh slice of slices, which only this call can reach: the
+   list of their contents is carried as a value *)
+Fixpoint nlv_loop (n : slice) (k : nat) (count : nat) (buf : slice) (empty : bool) (keys : list bytes) : M (slice * bool) :=
   match count with
   | O => ret (buf, empty)
   | S c' =>
@@ -273,8 +276,13 @@ Fixpoint nlv_loop (n : slice) (k : nat) (count : nat) (buf : slice) (empty : boo
       vl <- alloc [Clrv (fst e) (snd e)] ;;
       e' <- load_lrv (vl, 0) ;;
       let '(r, v) := e' in
-      if (length r =? 0) || (s_len v =? 0) then nlv_loop n (S k) c' buf empty
+      if (length r =? 0) || (s_len v =? 0) then nlv_loop n (S k) c' buf empty keys
       else
+        kb <- st_string_bytes nil_slice r ;;
+        key <- read_bytes kb ;;
+        if existsb (bytes_eqb key) keys then nlv_loop n (S k) c' buf empty keys
+        else
+        let keys := keys ++ [key] in
         buf0 <- (if empty then ret buf else append_bytes buf [bcomma]) ;;
         (* inside a language map the nil language reference is written as the key "-" *)
         buf1 <- (if bytes_eqb r nil_lang_ref
@@ -283,9 +291,9 @@ Fixpoint nlv_loop (n : slice) (k : nat) (count : nat) (buf : slice) (empty : boo
         o <- lrv_marshal r v ;;
         match o with
         | Some j =>
-            if (0 <? s_len j) then jb <- read_bytes j ;; buf2 <- append_bytes buf1 jb ;; nlv_loop n (S k) c' buf2 false
-            else nlv_loop n (S k) c' buf1 empty
-        | None => nlv_loop n (S k) c' buf1 empty
+            if (0 <? s_len j) then jb <- read_bytes j ;; buf2 <- append_bytes buf1 jb ;; nlv_loop n (S k) c' buf2 false keys
+            else nlv_loop n (S k) c' buf1 empty keys
+        | None => nlv_loop n (S k) c' buf1 empty keys
         end
   end.
 
@@ -316,7 +324,7 @@ Definition nlv_marshal_gen (pre_unescape inplace : bool) (n : slice) : M (option
     | Some b => ret (Some b)
     | None =>
         buf0 <- append_bytes nil_slice [lbrace] ;;
-        r <- nlv_loop n 0 (s_len n) buf0 true ;;
+        r <- nlv_loop n 0 (s_len n) buf0 true [] ;;
         let '(buf1, empty) := r in
         buf2 <- append_bytes buf1 [rbrace] ;;
         if empty then ret None else ret (Some buf2)
